@@ -117,6 +117,13 @@ class Ctx:
                 d = v["detail"] if isinstance(v["detail"], str) else json.dumps(v["detail"], default=str)
                 lines.append(f"  {d[:1500]}")
         distinct = sum(1 for r, n in self.rule_instances.items() if n > 0)
+        if self.prog is not None:
+            inl = getattr(self.prog, "inlined", None) or []
+            ren = getattr(self.prog, "renamed", None) or []
+            if inl or ren:
+                # functions that are new relative to the reference tree were analysed as part of their callers
+                self.extra["normalisation"] = {"inlined_new_functions": sorted({f"{c} into {a}" for a, c in inl})[:40],
+                                               "renamed_functions": [f"{o} analysed as {n}" for o, n in ren][:40]}
         if "per_config" in self.extra:
             prev = sum(v["obligations"] for v in self.extra["per_config"].values())
             prevd = sum(v["discharged"] for v in self.extra["per_config"].values())
